@@ -52,7 +52,8 @@ pysasl.SASLAuth.defaults = classmethod(_cached_defaults)
 logging.getLogger('slimta').addHandler(logging.NullHandler())
 logging.getLogger('slimta').propagate = False
 
-KEEP, RAISE = 0, 1
+KEEP, RAISE, TIMEOUT, KILL = 0, 1, 2, 3     # verdicts below 100; RAISE: an Exception subclass,
+                                            # TIMEOUT: gevent.Timeout (BaseException), KILL: GreenletExit
 K_BANNER, K_EHLO, K_HELO, K_AUTH, K_RSET, K_MAIL, K_RCPT, K_DATA, K_HAVE = range(9)
 KNAMES = ['BANNER_', 'EHLO', 'HELO', 'AUTH', 'RSET', 'MAIL', 'RCPT', 'DATA', 'HAVE_DATA']
 BASE_EXTS = {'8BITMIME', 'PIPELINING', 'ENHANCEDSTATUSCODES', 'SMTPUTF8'}
@@ -60,6 +61,36 @@ CONT, CLOSED, CRASHED = 0, 1, 2
 
 
 # ---------------------------------------------------------------- items
+def short(x):
+    """for messages, samples and mismatch dumps: long byte strings by length, head and tail"""
+    if isinstance(x, (bytes, bytearray)):
+        return bytes(x) if len(x) <= 120 else '<%d bytes: %r ... %r>' % (len(x), bytes(x[:24]), bytes(x[-24:]))
+    if isinstance(x, dict):
+        return {k: short(v) for k, v in x.items()}
+    if isinstance(x, (list, tuple)):
+        return type(x)(short(v) for v in x)
+    return x
+
+
+def long_item(prefix, n, suffix=b'', fill=b'x', **kw):
+    """a command line with an n byte filler; replays store (prefix, n, suffix, fill), not the line"""
+    it = item(prefix + fill * n + suffix, name='%s<%d x %s>%s' % (prefix.decode('latin1'), n, fill.decode('latin1'), suffix.decode('latin1')), **kw)
+    it['gen'] = [prefix, n, suffix, fill]
+    return it
+
+
+def compact(items):
+    return [{k: v for k, v in it.items() if k != 'line'} if 'gen' in it else it for it in items]
+
+
+def expand(items):
+    for it in items:
+        if 'gen' in it and 'line' not in it:
+            p, n, sfx, fill = it['gen']
+            it['line'] = p + fill * n + sfx
+    return items
+
+
 def item(line, v1=KEEP, v2=KEEP, v3=KEEP, data=b'', big=False, q=0, qkind='queue', resps=(), au=(4,), tls=1, name=None):
     return dict(line=line, v1=v1, v2=v2, v3=v3, data=data, big=big, q=q, qkind=qkind,
                 resps=list(resps), au=list(au), tls=tls, name=name or line.decode('latin1'))
@@ -84,8 +115,10 @@ class Script(object):
     reads, attributes everything the server wrote since the previous read to the
     command that was outstanding."""
 
-    def __init__(self, cfg, vb, items):
+    def __init__(self, cfg, vb, items, deliver='recv'):
         self.cfg, self.vb, self.items = cfg, vb, items
+        self.deliver = deliver
+        self.pending = b''
         self.cur = -1                      # -1: connection / banner
         self.sent = b''
         self.mark = 0
@@ -148,6 +181,10 @@ class Script(object):
 
 
 class FakeSocket(object):
+    """recv(n): what the client wrote next, at most n bytes of it at a time when the session's
+    delivery mode is 'recv' (default, like a real socket), at most 1460 bytes in mode 'mss', all of
+    it in one piece in mode 'whole'"""
+
     def __init__(self, script):
         self.script = script
 
@@ -162,7 +199,16 @@ class FakeSocket(object):
 
     def recv(self, n=4096):
         gevent.sleep(0)          # a read is a yield point
-        return self.script.next_chunk()
+        s = self.script
+        if s.pending:
+            lim = n if s.deliver == 'recv' else 1460
+            piece, s.pending = s.pending[:lim], s.pending[lim:]
+            return piece
+        chunk = s.next_chunk()
+        lim = {'recv': n, 'mss': min(n, 1460)}.get(s.deliver)
+        if lim and len(chunk) > lim:
+            chunk, s.pending = chunk[:lim], chunk[lim:]
+        return chunk
 
     def sendall(self, data):
         self.script.sent += bytes(data)
@@ -275,6 +321,10 @@ class Validators(object):
         v = self.script.verdict(slot)
         if v == RAISE:
             raise Scripted('validator raises')
+        if v == TIMEOUT:          # what `with gevent.Timeout(5): lookup()` leaks when the lookup is too slow
+            raise gevent.Timeout(0.01)
+        if v == KILL:
+            raise gevent.GreenletExit()
         if v != KEEP:
             reply.code = str(v)
             reply.message = 'scripted verdict'
@@ -352,9 +402,9 @@ def snapshot(script):
     return st
 
 
-def run_impl(cfg, vb, items):
+def run_impl(cfg, vb, items, deliver='recv'):
     """returns dict(outs=[(replies, events, fin)], state, fin, states=[per item state])"""
-    script = Script(cfg, vb, items)
+    script = Script(cfg, vb, items, deliver)
     CURRENT['script'] = script
     edge = SmtpEdge(None, RecorderQueue(script), max_size=cfg['size'], validator_class=Validators,
                     auth=bool(cfg['auth']), context=FakeContext(script) if cfg['context'] else None,
@@ -565,17 +615,20 @@ def malformed(line):
     return False
 
 
-def oracle(ctx, case, impl):
-    """the statement of C07 on what the implementation did"""
+def oracle(ctx, case, impl, report_case=None):
+    """the statement of C07 on what the implementation did.  `report_case` is what is written
+    into a replay (long lines by their parameters)"""
     items = case['items']
+    rc = report_case if report_case is not None else case
     aut = Aut()
     outs = impl['outs']
     stale = False
     if impl['protocol_error']:
-        ctx.fail('c07:reply-syntax', case, impl['protocol_error'])
+        ctx.fail('c07:reply-syntax', rc, short(impl['protocol_error']))
     for idx, (reps, evs, fin) in enumerate(outs):
         i = idx - 1
         it = items[i] if i >= 0 else None
+        ln = short(it['line']) if it is not None else None
         last = idx == len(outs) - 1
         before = Aut.__new__(Aut); before.__dict__ = dict(aut.__dict__)
         # 1. callbacks in protocol order
@@ -584,9 +637,23 @@ def oracle(ctx, case, impl):
                 continue
             why = aut.step(e)
             if why:
-                ctx.fail('c07:callback-order', case, 'command #%d %r: %s (events %r)' % (i, it and it['line'], why, evs))
+                ctx.fail('c07:callback-order', rc, 'command #%d %r: %s (events %r)' % (i, ln, short(why), short(evs)))
                 return
         st = impl['states'][idx]
+        # a callback of this command raised; which families could it have been
+        raised_ev = any(e[0] == 'call' and e[4] is None for e in evs)
+        verdicts = [case['vb']] if it is None else [it['v1'], it['v2'], it['v3']]
+        killed = raised_ev and KILL in verdicts and last and fin == CRASHED
+        if raised_ev:
+            # whatever a callback raises ends the session; an Exception subclass or a gevent.Timeout is
+            # answered with a final 421, only a kill (GreenletExit) goes unanswered
+            if not (last and fin != CONT):
+                ctx.fail('c07:raising-callback-session-continues', rc, 'command #%d %r: a callback raised, the session went on (replies %r)' % (i, ln, reps))
+            elif not killed and not (reps and reps[-1] == 421):
+                fam = 'gevent.Timeout' if TIMEOUT in verdicts else 'exception'
+                ctx.fail('c07:callback-timeout-unanswered' if TIMEOUT in verdicts else 'c07:raising-callback-unanswered', rc,
+                         'command #%d %r: its callback raised (%s) and the line got no final 421 reply: replies %r, session ended by %s' % (
+                             i, ln, fam, reps, impl['exc'] or 'the server'))
         if it is not None:
             w, a = split_line(it['line'])
             # 2. malformed / out of order => one error reply, no callback
@@ -594,38 +661,43 @@ def oracle(ctx, case, impl):
             ooo = (k is not None and not before.allowed(k)) or (w == b'STARTTLS' and not before.allowed_tls())
             if malformed(it['line']) or ooo:
                 if evs or len(reps) != 1 or not (400 <= reps[0] <= 599):
-                    ctx.fail('c07:error-reply-without-callback', case,
+                    ctx.fail('c07:error-reply-without-callback', rc,
                              'command #%d %r is %s: replies %r events %r' % (
-                                 i, it['line'], 'out of order' if ooo else 'malformed', reps, evs))
+                                 i, ln, 'out of order' if ooo else 'malformed', reps, short(evs)))
             # 4. one final reply (+ intermediates)
             inter, final = reps[:-1], reps[-1:]
             tls_fail = (w == b'STARTTLS' and reps == (220, 421))
+            if killed:       # documented exception: no final reply, only the intermediates already written
+                inter, final = reps, (421,)
             ok = len(final) == 1 and all(c in (354, 334) for c in inter) and (final[0] not in (354, 334))
             if ok and inter:
                 ok = (w == b'DATA' and inter == (354,)) or (w == b'AUTH' and set(inter) == {334} and len(inter) <= len(it['resps']))
             if not ok and not tls_fail:
-                ctx.fail('c07:one-final-reply', case, 'command #%d %r got replies %r' % (i, it['line'], reps))
+                key = 'c07:one-final-reply'
+                if len(it['line']) > 512 and len(reps) != 1:
+                    key = 'c07:long-line-several-replies'
+                ctx.fail(key, rc, 'command #%d %r (%d bytes, delivery %s) got replies %r' % (i, ln, len(it['line']), case.get('deliver', 'recv'), reps))
             # 3. transaction forgotten
             accepted_reset = w in (b'RSET', b'EHLO', b'HELO') and reps == (250,)
             message_done = w == b'DATA' and 354 in reps and len(reps) == 2
-            if (accepted_reset or message_done) and st is not None and not (last and fin == CRASHED):
+            if (accepted_reset or message_done) and st is not None and not (last and fin == CRASHED) and not raised_ev:
                 if st[2] or st[3]:
-                    ctx.fail('c07:server-transaction-survives', case,
-                             'after command #%d %r (replies %r) have_mailfrom/have_rcptto = %r/%r' % (i, it['line'], reps, st[2], st[3]))
+                    ctx.fail('c07:server-transaction-survives', rc,
+                             'after command #%d %r (replies %r) have_mailfrom/have_rcptto = %r/%r' % (i, ln, reps, st[2], st[3]))
                 if st[10] is not None:
                     stale = message_done
                     ctx.fail('c07:edge-envelope-survives-rejected-message' if message_done else 'c07:edge-envelope-survives-reset',
-                             case, 'after command #%d %r (replies %r) SmtpSession.envelope still holds %r' % (i, it['line'], reps, st[10]))
+                             rc, 'after command #%d %r (replies %r) SmtpSession.envelope still holds %r' % (i, ln, reps, short(st[10])))
         else:
-            if len(reps) != 1:
-                ctx.fail('c07:one-final-reply', case, 'connection start got replies %r' % (reps,))
+            if len(reps) != 1 and not (killed and reps == ()):
+                ctx.fail('c07:one-final-reply', rc, 'connection start got replies %r' % (reps,))
         # server and edge views of the transaction agree between commands
-        if st is not None and not (last and fin == CRASHED):
+        if st is not None and not (last and fin == CRASHED) and not (last and raised_ev):
             if st[10] is None:
                 stale = False
             if bool(st[2]) != (st[10] is not None) or bool(st[3]) != (st[10] is not None and len(st[10][1]) > 0):
                 if not stale:       # (a stale envelope left by a rejected message is reported once, above)
-                    ctx.fail('c07:server-edge-disagree', case, 'after command #%d: have_mailfrom=%r have_rcptto=%r envelope=%r' % (i, st[2], st[3], st[10]))
+                    ctx.fail('c07:server-edge-disagree', rc, 'after command #%d: have_mailfrom=%r have_rcptto=%r envelope=%r' % (i, st[2], st[3], short(st[10])))
         # 5. close codes end the session
         for j, c in enumerate(reps):
             if c in (221, 421):
@@ -633,14 +705,17 @@ def oracle(ctx, case, impl):
                     key = 'c07:close-code-session-continues'
                     if it is not None and split_line(it['line'])[0] == b'DATA' and j == len(reps) - 1 and reps[0] == 354:
                         key = 'c07:421-after-data-session-continues'
-                    ctx.fail(key, case, 'reply %d to command #%d %r did not end the session (replies %r, session went on: %s)' % (
-                        c, i, it and it['line'], reps, 'yes' if not last or fin == CONT else 'no'))
+                    ctx.fail(key, rc, 'reply %d to command #%d %r did not end the session (replies %r, session went on: %s)' % (
+                        c, i, ln, reps, 'yes' if not last or fin == CONT else 'no'))
         if last and fin == CLOSED and not (reps and reps[-1] in (221, 421)):
-            ctx.fail('c07:closed-without-close-code', case, 'session closed after replies %r' % (reps,))
+            ctx.fail('c07:closed-without-close-code', rc, 'session closed after replies %r' % (reps,))
+        if last and fin == CRASHED and not raised_ev and not (reps and reps[-1] in (501, 421)):
+            ctx.fail('c07:session-dropped-without-reply', rc, 'command #%d %r: the session was dropped by %s without an error reply (replies %r)' % (
+                i, ln, impl['exc'], reps))
 
 
 # ---------------------------------------------------------------- alphabet
-V = [KEEP, 450, 550, 421, 221, RAISE]
+V = [KEEP, 450, 550, 421, 221, RAISE, TIMEOUT, KILL]
 BODY = b'Subject: t\r\n\r\nhello\r\n'
 BIGBODY = b'Subject: big\r\n\r\n' + b'x' * 76 + b'\r\n' + b'y' * 76 + b'\r\n'
 PLAIN_OK = base64.b64encode(b'\x00user\x00pass')
@@ -648,7 +723,7 @@ SIZE = 120
 
 
 def vname(v):
-    return {KEEP: 'keep', RAISE: 'raise'}.get(v, str(v))
+    return {KEEP: 'keep', RAISE: 'raise', TIMEOUT: 'raise-gevent.Timeout', KILL: 'raise-GreenletExit'}.get(v, str(v))
 
 
 def alphabet(cfg, reduced=False):
@@ -719,7 +794,7 @@ def abstract(st):
 def check_cases(ctx, cases, kind, on_result=None):
     models = run_model_batch(ctx, cases)
     for case, mo in zip(cases, models):
-        impl = run_impl(case['cfg'], case['vb'], case['items'])
+        impl = run_impl(case['cfg'], case['vb'], case['items'], case.get('deliver', 'recv'))
         items = case['items']
         nontriv = len(impl['outs']) > 1 and any(len(o[1]) > 0 or (o[0] and o[0][-1] >= 400) for o in impl['outs'][1:])
         ctx.evaluated((kind, repr(case['cfg']), case['vb'], tuple((i['name'], i['line']) for i in items)), nontrivial=nontriv)
@@ -728,18 +803,18 @@ def check_cases(ctx, cases, kind, on_result=None):
         for o in impl['outs'][1:]:
             for c in o[0]:
                 ctx.count('reply:%d' % c)
-        case_j = dict(cfg=case['cfg'], vb=case['vb'], items=items)
+        case_j = dict(cfg=case['cfg'], vb=case['vb'], items=compact(items), deliver=case.get('deliver', 'recv'))
         if not mo['accepted']:
-            ctx.mismatch('model-trace-rejected-by-automaton', case_j, None, mo['outs'])
+            ctx.mismatch('model-trace-rejected-by-automaton', case_j, None, short(mo['outs']))
         if impl['outs'] != mo['outs'] or impl['fin'] != mo['fin']:
-            ctx.mismatch('replies/callbacks/ended', case_j, dict(outs=impl['outs'], fin=impl['fin'], exc=impl['exc']),
-                         dict(outs=mo['outs'], fin=mo['fin']))
+            ctx.mismatch('replies/callbacks/ended', case_j, dict(outs=short(impl['outs']), fin=impl['fin'], exc=impl['exc']),
+                         dict(outs=short(mo['outs']), fin=mo['fin']))
         elif impl['state'] != mo['state']:
-            ctx.mismatch('state', case_j, impl['state'], mo['state'])
-        oracle(ctx, case_j, impl)
+            ctx.mismatch('state', case_j, short(impl['state']), short(mo['state']))
+        oracle(ctx, dict(case_j, items=items), impl, report_case=case_j)
         if on_result:
             on_result(case, impl, mo)
-        ctx.sample(dict(kind=kind, cfg=case['cfg'], vb=case['vb'], lines=[i['line'] for i in items],
+        ctx.sample(dict(kind=kind, cfg=case['cfg'], vb=case['vb'], lines=[short(i['line']) for i in items],
                         replies=[list(o[0]) for o in impl['outs']], fin=impl['fin']), cap=5)
     return models
 
@@ -754,6 +829,10 @@ def notes(ctx, case, impl):
         if fin == CRASHED and l.strip().upper() in (b'MAIL', b'RCPT'):
             ctx.note('a bare "MAIL"/"RCPT" line (no argument) makes re.match(None) raise TypeError: 421 "Unhandled system error" and the session ends; '
                      'an error reply without callback, as the statement asks, but a syntax error kills the connection')
+        if fin == CRASHED and impl['exc'] == 'GreenletExit':
+            ctx.note('a callback killed by GreenletExit (raise family KILL; the way gevent kills a greenlet): no reply is written and the session ends '
+                     '(model: VRaise FKill, the one documented exception of C07_one_reply_per_command); a gevent.Timeout leaking out of a callback is answered '
+                     '"421 4.4.2" and the session is closed (ConnectionLost); an Exception subclass "421 4.3.0"')
     st_hist = impl['states']
     for idx in range(1, len(st_hist)):
         a, b = st_hist[idx - 1], st_hist[idx]
@@ -799,9 +878,10 @@ def run(ctx):
     ctx.extra['rule'] = (
         'BFS over the abstract session state (server flags, extension set, edge envelope shape with recipients capped at 2, auth, TLS) of the REAL '
         'Server+SmtpSession per configuration {STARTTLS offered?, AUTH?, SIZE?, immediate TLS ok/failing}: each state is reached by the first command '
-        'prefix found and then every symbol (command class x validator verdict {keep,450,550,421,221,raise} x malformed variants x queue results x '
+        'prefix found and then every symbol (command class x validator verdict {keep,450,550,421,221,raise Exception,raise gevent.Timeout,raise GreenletExit} x malformed variants x queue results x '
         'AUTH/TLS outcomes, ~100 symbols) is issued; plus every sequence up to the stated depth over a 16-symbol alphabet; plus random depth-12 '
-        'sequences over the full alphabet; compared: reply codes per command, ordered handler-callback trace with arguments/params/resulting code, '
+        'sequences over the full alphabet; plus command lines of 500..70000 bytes (NOOP/EHLO/MAIL/RCPT/unknown verbs, tails spelling RSET/QUIT/DATA/MAIL behind a piece boundary) '
+        'handed out by the socket in recv()-sized pieces, 1460-byte segments and whole; compared: reply codes per command, ordered handler-callback trace with arguments/params/resulting code, '
         'handoff events, how the session ended, final server+edge state; non-trivial = a case whose commands produced a callback or an error reply')
     ctx.extra['trusted_base'] = [
         'fake socket / fake TLS context (slimta.smtp.io.SSLSocket pointed at the fake TLS socket class), PtrLookup stub, recorder queue; '
@@ -855,6 +935,7 @@ def run(ctx):
         'all %d command sequences of length <= %d over a %d-symbol alphabet%s (configuration STARTTLS+AUTH+SIZE)' % (
             len(bfs_cfgs), tot_states, tot_trans, len(cases), depth, len(red),
             ' and of length %d over a %d-symbol core alphabet' % (depth + 1, ncore) if ncore else ''))
+    run_long_lines(ctx, cfgs[0])
     # random long sequences
     rng = ctx.rng
     n = 500 if ctx.quick else 8000
@@ -869,6 +950,38 @@ def run(ctx):
     check_cases(ctx, cases, 'random-depth-12', lambda c, i, m: notes(ctx, c, i))
     # recv_command / MAIL parameter parsing on their own (volume)
     run_parsers(ctx, 2000 if ctx.quick else 40000)
+
+
+LONG_LENGTHS = [500, 1000, 2047, 2048, 2049, 5000, 10000, 70000]
+
+
+def run_long_lines(ctx, cfg):
+    """command-line LENGTH as a dimension: one line = one final reply however long it is and however the
+    socket hands it out (recv()-sized pieces, 1460 byte segments, or whole); a tail that spells a command
+    is not a command"""
+    A0 = {a['name']: a for a in alphabet(cfg)}
+    longs = []
+    for n in LONG_LENGTHS:
+        longs += [long_item(b'NOOP ', n), long_item(b'EHLO ', n), long_item(b'MAIL FROM:<', n, b'@x.example>'),
+                  long_item(b'RCPT TO:<', n, b'@x.example>'), long_item(b'XYZZY ', n), long_item(b'', n, fill=b'Q'),
+                  long_item(b'NOOP ', n, b' RSET'), long_item(b'RCPT TO:<r@x.example> ORCPT=', n, b' QUIT')]
+    # tails placed right behind a piece boundary, so that a piece on its own reads "RSET" / "QUIT" / "DATA"
+    for piece in (4096, 1460, 2048, 2049):
+        for k in (1, 2):
+            for tail in (b'RSET', b'QUIT', b'DATA', b'MAIL FROM:<evil@x.example>'):
+                longs.append(long_item(b'NOOP ', k * piece - 5, tail))
+                longs.append(long_item(b'XYZZY ', k * piece - 6, tail))
+    cases = []
+    for deliver in ('recv', 'mss', 'whole'):
+        for it in longs:
+            # inside an open transaction (it must survive a NOOP / unknown line), and right after EHLO
+            cases.append(dict(cfg=cfg, vb=KEEP, deliver=deliver,
+                              items=[A0['EHLO/keep'], A0['MAIL/keep'], A0['RCPT/keep'], it, A0['DATA/keep'], A0['NOOP']]))
+            if it['gen'][0][:4] in (b'EHLO', b'MAIL', b'RCPT'):
+                cases.append(dict(cfg=cfg, vb=KEEP, deliver=deliver,
+                                  items=[A0['EHLO/keep'], it, A0['MAIL/keep'], A0['RCPT/keep'], A0['DATA/keep']]))
+    check_cases(ctx, cases, 'long-lines', lambda c, i, m: notes(ctx, c, i))
+    ctx.count('long-line-items', len(longs))
 
 
 def randomise(rng, a):
@@ -958,19 +1071,20 @@ def _unhex(x):
 
 def replay(ctx, case):
     c = _unhex(case.get('case', case))
-    items = c['items']
+    items = expand(c['items'])
     for it in items:
         it['au'] = list(it['au'])
-    impl = run_impl(c['cfg'], c['vb'], items)
-    print('configuration:', c['cfg'], 'banner verdict:', vname(c['vb']))
+    deliver = c.get('deliver', 'recv')
+    impl = run_impl(c['cfg'], c['vb'], items, deliver)
+    print('configuration:', c['cfg'], 'banner verdict:', vname(c['vb']), 'delivery:', deliver)
     print('S:', impl['outs'][0][0], [e for e in impl['outs'][0][1]])
     for i, o in enumerate(impl['outs'][1:]):
         it = items[i]
-        print('C: %r   verdicts=%s/%s/%s' % (it['line'], vname(it['v1']), vname(it['v2']), vname(it['v3'])))
-        print('S:   replies %r  callbacks %r  state-after %r' % (list(o[0]), list(o[1]), impl['states'][i + 1]))
+        print('C: %r   verdicts=%s/%s/%s' % (short(it['line']), vname(it['v1']), vname(it['v2']), vname(it['v3'])))
+        print('S:   replies %r  callbacks %r  state-after %r' % (list(o[0]), short(list(o[1])), short(impl['states'][i + 1])))
     print('session: %s%s; commands not read by the server: %r' % (
         ['still open, waiting for the next command', 'closed by the server', 'dropped by an exception'][impl['fin']],
-        ' (%s)' % impl['exc'] if impl['exc'] else '', [it['line'] for it in items[len(impl['outs']) - 1:]]))
+        ' (%s)' % impl['exc'] if impl['exc'] else '', [short(it['line']) for it in items[len(impl['outs']) - 1:]]))
 
     class C(object):
         def __init__(self):
@@ -979,7 +1093,7 @@ def replay(ctx, case):
         def fail(self, key, case, what):
             self.fails.append((key, what))
     cc = C()
-    oracle(cc, dict(cfg=c['cfg'], vb=c['vb'], items=items), impl)
+    oracle(cc, dict(cfg=c['cfg'], vb=c['vb'], items=items, deliver=deliver), impl)
     for k, w in cc.fails:
         print('ORACLE FAILS [%s]: %s' % (k, w))
     if ctx.model:
